@@ -36,15 +36,17 @@ MANIFEST_ENTRY = {
         "document comparison. Trusted: Lean kernel, harness incl. its XML-patch applier, driver, shims."),
     "technique": "Lean 4 proof (slice characterisation, strict monotonicity of starts, loop cover/minimality lemmas) + model/implementation correspondence",
 }
-PROP_FILES = ["DashLive/Props/C09.lean", "DashLive/Props/GenTie.lean"]
-LEAN_TARGETS = ["DashLive.Props.C09", "DashLive.Props.GenTie"]
+PROP_FILES = ["DashLive/Props/C09.lean", "DashLive/Props/GenTie.lean", "DashLive/Props/GenTieTimeline.lean"]
+LEAN_TARGETS = ["DashLive.Props.C09", "DashLive.Props.GenTie", "DashLive.Props.GenTieTimeline"]
 
 
 def _gen_arith():
     """Gen/Arith.lean (incl. the `while` loop of get_segment_index) is translated from /repo's source
     text; Props/GenTie.lean proves it equal to the model (`tie_getSegmentIndex`)"""
     import gen_arith
+    import gen_timeline
     gen_arith.main()
+    gen_timeline.main()
 
 
 GENERATORS = [_gen_arith]
